@@ -244,6 +244,32 @@ def run(ctx):
                                           "spec_std": estd.tolist()})
         else:
             ctx.trace_ok()
+    # reading is a stuttering step of the model: query mean and std (twice) after every push of one
+    # accumulator and compare with the state of that prefix
+    by_order = {tuple(o): sid_ for sid_, o in walk(g.init[0], [])}
+    longest = max(len(o) for o in by_order)
+    for order in sorted(o for o in by_order if len(o) == longest):
+        acc = Accumulator()
+        ctx.case(("acc_interleaved_reads", order), nontrivial=True)
+        bad = None
+        for n_, k in enumerate(order):
+            acc.push(mk(pool[k - 1], spacing=(1.0, 1.0)))
+            st = g.states[by_order[order[:n_ + 1]]]
+            emean = np.array([float(rat(x)) for x in st["out"][0]])
+            estd = np.sqrt(np.array([float(rat(x)) for x in st["out"][1]]))
+            for rep in range(2):
+                std = vals2d(acc.std()).ravel()
+                mean = vals2d(acc.mean()).ravel()
+                if quant.reldiff(mean, emean) > 1e-12 or float(np.max(np.abs(std - estd))) > 1e-12:
+                    bad = {"order": list(order), "after_pushes": n_ + 1, "read": rep + 1, "std": std.tolist(),
+                           "spec_std": estd.tolist(), "mean": mean.tolist(), "spec_mean": emean.tolist()}
+                    break
+            if bad:
+                break
+        if bad:
+            ctx.violation("accumulator/read_changes_state", bad)
+        else:
+            ctx.trace_ok()
     ctx.sample({"tool": "Accumulator", "push_order": order, "spec_mean": emean.tolist(),
                 "spec_std": estd.tolist()})
     ctx.notes["accumulator_orders"] = norders
